@@ -291,6 +291,8 @@ def run(ctx):
     per_line_reset(ctx, "R07-f")
     skipped_ranges_per_file(ctx, "R07-g")
     merge_keeps_every_diagnostic(ctx, "R07-h")
+    import c17
+    c17.line_queries_share_one_matcher(ctx, "R07-i")     # shared with C17: which lines are checked at all
     # with R06-b: operational ⇒ exit 1
     import c06
     c06.exit_code_tables(ctx, "R07-d")
